@@ -710,6 +710,14 @@ class Engine:
             raise OutOfSubset("str * int")
         if isinstance(op, ast.Mod) and isinstance(a, VStr):
             return s.percent(a, b, st, node)
+        if isinstance(op, ast.Add) and isinstance(a, VList) and isinstance(b, VList) and len(a.cols) == 1 and len(b.cols) == 1 \
+                and a.cols[0].sort() == b.cols[0].sort():
+            # concatenation of two symbolic lists: a fresh element array pinned down by two quantified clauses
+            arr = z3.Const(fresh_name("concat"), a.cols[0].sort())
+            k = z3.Int("k_cat")
+            st.assume(z3.ForAll([k], z3.Implies(z3.And(0 <= k, k < a.n), z3.Select(arr, k) == z3.Select(a.cols[0], k)), patterns=[z3.Select(arr, k)]))
+            st.assume(z3.ForAll([k], z3.Implies(z3.And(0 <= k, k < b.n), z3.Select(arr, a.n + k) == z3.Select(b.cols[0], k)), patterns=[z3.Select(b.cols[0], k)]))
+            return VList(a.n + b.n, [arr], a.ety)
         if isinstance(op, ast.Add) and isinstance(a, VCList) and isinstance(b, VCList):
             return VCList(a.items + b.items)
         if isinstance(op, ast.Add) and isinstance(a, VTuple) and isinstance(b, VTuple):
